@@ -22,7 +22,7 @@ import (
 func init() {
 	core.Register(&core.Property{
 		ID:   "C11",
-		Rule: "expression trees up to depth 6 over all 13 precedence levels, function arguments and parenthesised sub-terms (grammar-directed generator, mostly well-typed) plus pure integer/Boolean/string operator trees with a harness-computed value; each tree rendered minimally parenthesised (precedence table, left associativity), fully parenthesised, with seeded token-gap decorations from {'', ' ', '\\n', '\\t', '/* c */', '// c\\n'} and as pure blank re-spellings of the minimal rendering; each also through Compile without options when the tree needs none: all renderings must compile or all must fail, evaluate to the same canonical result on every input of a fixed input set (clock fixed), Expression.String() must return the source, and every compiling source extended by a token that cannot continue an expression must be rejected. distinct_nontrivial = distinct trees whose minimal and full renderings differ as text and which evaluate to a value",
+		Rule: "expression trees up to depth 6 over all 13 precedence levels, function arguments and parenthesised sub-terms (grammar-directed generator, mostly well-typed) plus pure integer/Boolean/string operator trees with a harness-computed value; each tree rendered minimally parenthesised (precedence table, left associativity), fully parenthesised, with seeded token-gap decorations from {'', ' ', '\\n', '\\t', '/* c */', '// c\\n'} and as pure blank re-spellings of the minimal rendering; each also through Compile without options when the tree needs none: all renderings must compile or all must fail, evaluate to the same canonical result on every input of a fixed input set (clock fixed), Expression.String() must return the source, and every compiling source extended by a token that cannot continue an expression must be rejected. a tight re-spelling (blanks only where tokens would merge), every element name and function name directly after an operator symbol, type operators next to every binary operator in three groupings; distinct_nontrivial = distinct trees whose minimal and full renderings differ as text and which evaluate to a value",
 		Assumptions: []string{"unsupported alternatives (|, in, contains, ~) make all renderings fail alike: consistent, not a violation here",
 			"a string or unit word is never appended after a source ending in a NUMBER (that would form a quantity literal)"},
 		Run:    runC11,
